@@ -165,6 +165,7 @@ type Sim struct {
 	NextPower map[int64][]int64 // validator powers in force from height h on (validator-set changes applied by EndBlock of h-1)
 	Live     bool // real tickers and receiveRoutines (trace-recording mode)
 	PeerIdx  map[string]int // live stack mode: p2p peer key -> validator index
+	LiveCutSeq uint64       // live stack mode with a restart: events after this sequence number are not validated
 	ByzActive bool // live mode: Byzantine validators send equivocating messages
 	LiveScale int // timeout scale in ms (propose = 6x, prevote/precommit = 3x, commit = 2x)
 }
